@@ -726,15 +726,18 @@ type Resp struct {
 	SessBefore, SessAfter map[string]string
 	CookBefore, CookAfter map[string]string
 
-	Rec    Record
-	Panic  interface{}
-	Hung   bool // the handler did not return within HangAfter
-	Calls  []string
-	Fired  string
-	Mails  []Mail
-	SMS    []SMS
-	Logs   []string
-	T0, T1 time.Time
+	Rec   Record
+	Panic interface{}
+	Hung  bool // the handler did not return within HangAfter
+	// Cancelled: the request context was cancelled while the request was being served (plan kind
+	// "cancel": the client went away); no backend call failed
+	Cancelled bool
+	Calls     []string
+	Fired     string
+	Mails     []Mail
+	SMS       []SMS
+	Logs      []string
+	T0, T1    time.Time
 }
 
 // UID returns the session user after the response.
@@ -848,12 +851,16 @@ func (w *World) Do(q Req) *Resp {
 	ctx := context.WithValue(req.Context(), ctxJar, jar)
 	ctx = context.WithValue(ctx, ctxProbe, rec)
 	ctx = context.WithValue(ctx, oauth2.HTTPClient, &http.Client{Transport: providerRT{w}})
+	// the client may give up while the request is being served (plan kind "cancel")
+	ctx, cancel := context.WithCancel(ctx)
+	defer cancel()
 	req = req.WithContext(ctx)
 
 	out := &Resp{SessBefore: jar.SessionCopy(), CookBefore: jar.CookieCopy()}
 	if w.Concurrent {
 		return w.doConcurrent(out, jar, req, rec)
 	}
+	w.B.Cancel = cancel
 	nm, ns, nl := w.Mail.Len(), w.SMS.Len(), w.Log.Len()
 	w.B.Reset(q.Fault)
 	rr := &recWriter{ResponseRecorder: httptest.NewRecorder()}
@@ -878,6 +885,7 @@ func (w *World) Do(q Req) *Resp {
 	}
 	out.Calls = w.B.Snapshot()
 	out.Fired = w.B.Fired
+	out.Cancelled = w.B.Cancelled
 	w.B.Reset(FaultPlan{})
 	out.Status = rr.Code
 	out.Wrote = rr.wrote
